@@ -2,7 +2,26 @@ import GeoVerif.Gen.SrcGeoJson
 import GeoVerif.Props.C14
 import GeoVerif.Props.C06Src
 /-!
-# Source tie for the GeoJSON exporters, the ring orientation and the time fields (C14)
+# Source tie for GeoJSON export / import (C14)
+
+`GeoVerif/Gen/SrcGeoJson.lean` is regenerated on every run from the current text of `_geometry.py`, `structures.py`,
+`multistructures.py`, `_base.py`, `coordinates.py` and `utils/functions.py` (unit `SrcGeoJson`, declared in
+`harness/srcunits_geojson.py`, which also says how Python objects are read).  This file proves every translated
+definition equal to the hand-written model of `Model/GeoJson.lean` / `Model/Plane.lean`:
+
+* ring orientation — `ensure_edge_bounds`, `is_counter_clockwise` (the shoelace sum over consecutive vertex pairs),
+  `Coordinate.__eq__`, `GeoPolygon.__init__` (close, then reverse unless counter-clockwise `^ _is_hole`);
+* positions and rings — `Coordinate.to_float`, `bounding_coords` / `linear_rings` of polygon, box, circle / ellipse, ring /
+  wedge and multi-polygon (where a hole is reversed);
+* the geometry member — `to_geo_interface` of the nine exporting classes (`coordinates` nesting, `bbox`);
+* the Feature — `properties`, `_properties_json`, `to_geojson` (`k` / `include_bbox` popped, property override order,
+  `**kwargs` as further members);
+* the way back — `get_dt_from_geojson_props` (both fields popped, instant vs. interval) and `from_geojson` of the six
+  importable types (geometry selection, type test, position / ring / member loops, the time fields popped from a *copy*
+  of `properties`);
+
+and restates the headline theorems of `Props/C14.lean` — RFC 7946 winding, export → import identity, the time fields —
+for the translated definitions (`src_*`, `export_eq`, `src_full_roundtrip`).
 -/
 namespace GV.C14Src
 open GV GV.GeoJson
@@ -1204,6 +1223,78 @@ theorem src_time_fields_absent (s : ShapeS) (hdt : s.dt = none) (hP : PropsOK s.
   rw [hp, sanKvs_of_native rt s.props hP.1]
   exact getDt_absent rt s.props hP.2.1 hP.2.2
 
+/-! ### export with the translated exporters, import with the translated importers -/
+
+/-- `<Type>.from_geojson`, the translated importer of each type -/
+def srcImport (k : Kind) (d : Obj) (ks ke : String) : Except String Shape :=
+  match k with
+  | .point => pointFromGeoJson rt d ks ke
+  | .line => lineFromGeoJson rt d ks ke
+  | .polygon => polygonFromGeoJson rt d ks ke
+  | .mpoint => mpointFromGeoJson rt d ks ke
+  | .mline => mlineFromGeoJson rt d ks ke
+  | .mpoly => mpolyFromGeoJson rt d ks ke
+
+/-- the `coordinates` member is nested lists as deep as the type iterates over it (decidable; true of every document the
+    exporters write, see `arrOK_exported`) -/
+def arrOK (k : Kind) (d : Obj) : Bool :=
+  match k with
+  | .point => true
+  | .line => arr1 (oget (geomOf d) "coordinates")
+  | .mpoint => arr1 (oget (geomOf d) "coordinates")
+  | .polygon => arr2 (oget (geomOf d) "coordinates")
+  | .mline => arr2 (oget (geomOf d) "coordinates")
+  | .mpoly => arr3 (oget (geomOf d) "coordinates")
+
+/-- **the importers of the source are the model's importers** (shape returned, exception raised) on every document whose
+    `coordinates` are lists where the importer iterates -/
+theorem srcImport_eq (k : Kind) (d : Obj) (ks ke : String) (h : arrOK k d = true) :
+    srcImport rt k d ks ke = (fromGeoJson rt k (.obj d) ks ke).map (·.1) := by
+  cases k with
+  | point => exact pointFromGeoJson_eq rt d ks ke
+  | line => exact lineFromGeoJson_eq rt d ks ke h
+  | polygon => exact polygonFromGeoJson_eq rt d ks ke h
+  | mpoint => exact mpointFromGeoJson_eq rt d ks ke h
+  | mline => exact mlineFromGeoJson_eq rt d ks ke h
+  | mpoly => exact mpolyFromGeoJson_eq rt d ks ke h
+
+theorem isArr_ringToJ (r : List Pos) : isArr (ringToJ r) = true := rfl
+
+theorem isArr2_ringsToJ (rs : List (List Pos)) : isArr2 (J.arr (rs.map ringToJ)) = true := by
+  simp [isArr2, isArr_ringToJ]
+
+/-- what the exporters write is nested lists all the way down -/
+theorem arrOK_exported (g : Geom) (k : Option Nat) (geo props extra : Obj) (hx : ExtraOK extra)
+    (hc : oget geo "coordinates" = some (g.coordinates k)) :
+    arrOK g.kind (oupdate [("type", .str "Feature"), ("geometry", .obj geo), ("properties", .obj props)] extra) = true := by
+  obtain ⟨_, m2, _, m4⟩ := exported_members (geo := geo) (props := props) hx
+  have hg : geomOf (oupdate [("type", .str "Feature"), ("geometry", .obj geo), ("properties", .obj props)] extra) = geo := by
+    simp [geomOf, ohas, m4, m2]
+  cases g <;> simp [arrOK, Geom.kind, hg, hc, Geom.coordinates, arr1, arr2, arr3, isArr_ringToJ, isArr2_ringsToJ, isArr, isArr2,
+    ringToJ]
+
+/-- **export → import, source to source** — for an object of any exporting class: the Feature the translated `to_geojson`
+    builds, handed to the translated `from_geojson` of its type, comes back as the polygon form of the shape with the same
+    time bounds and the same user properties -/
+theorem src_full_roundtrip (hrt : rt.Lawful) (r : Recv) (dt : Option TI) (props : Obj) (o : Opts) (doc : Obj)
+    (hok : r.OK o.k) (hg : GeomOK r.toGeom o.k) (hP : PropsOK props) (hdt : DtOK dt)
+    (hov : o.props.getD [] = []) (hx : ExtraOK o.extra)
+    (hexp : Src.GeoJson.toGeoJson rt (r.shape rt dt props) o.props (kwOf o) = .ok doc) :
+    ∃ sg, r.toGeom.polyForm o.k = .ok sg ∧
+      srcImport rt r.toGeom.kind doc "datetime_start" "datetime_end" = .ok ⟨sg, dt, props⟩ := by
+  obtain ⟨sg, h1, h2⟩ := src_roundtrip rt hrt r dt props o doc hok hg hP hdt hov hx hexp
+  refine ⟨sg, h1, ?_⟩
+  have hm := export_eq rt r dt props o hok
+  rw [hexp] at hm
+  obtain ⟨geo, hgeo, hdoc⟩ := toGeoJson_ok hm.symm
+  have hd : doc = oupdate [("type", .str "Feature"), ("geometry", .obj geo),
+      ("properties", .obj (exportedProps rt ⟨r.toGeom, dt, props⟩ o))] o.extra := by
+    simpa [Except.map] using hdoc
+  have harr : arrOK r.toGeom.kind doc = true := by
+    rw [hd]; exact arrOK_exported r.toGeom o.k geo _ _ hx (toGeoInterface_ok hgeo).2
+  rw [srcImport_eq rt _ doc _ _ harr, h2]
+  rfl
+
 /-! ### non-vacuity: the hypotheses hold of concrete objects -/
 
 /-- a unit box with a triangular hole, as an exporting object -/
@@ -1230,5 +1321,9 @@ example : (Recv.mpoly [.polygon ⟨[⟨0, 0, none⟩, ⟨1, 0, none⟩, ⟨0, 1,
 example (rt : Rt) : polygonInitDefault rt [⟨0, 0, none⟩, ⟨0, 1, none⟩, ⟨1, 0, none⟩] =
     .ok [⟨0, 0, none⟩, ⟨1, 0, none⟩, ⟨0, 1, none⟩, ⟨0, 0, none⟩] := by
   rw [polygonInitDefault_eq]; decide +kernel
+
+/-- a bare LineString geometry satisfies the importers' assumption -/
+example : arrOK .line [("type", .str "LineString"), ("coordinates", .arr [.arr [.num 0, .num 0], .arr [.num 1, .num 1]])] = true := by
+  decide
 
 end GV.C14Src
